@@ -38,7 +38,7 @@ Lemma foreign_codec_refused c e ps :
 Proof.
   intros Hi Hf Hm Hex. unfold open_wal.
   destruct (negb (FirstExternalCodecID <=? c_codec c) && negb (c_codec c =? BinaryCodecID)); [eauto|].
-  rewrite Hi. cbn [negb]. rewrite Hm.
+  rewrite Hi. cbn [negb]. unfold armed. rewrite Hf. cbn [andb]. rewrite Hm.
   pose proof (open_segs_foreign_codec c (ps_segs ps) [] e Hex) as H.
   destruct (open_segs c (ps_segs ps) [] e) as [[[r segs] tl] e1].
   destruct r; try (eexists; eexists; reflexivity). congruence.
@@ -80,7 +80,7 @@ Lemma bad_sealed_segment_refused c e ps :
 Proof.
   intros Hi Hm Hex. unfold open_wal.
   destruct (negb (FirstExternalCodecID <=? c_codec c) && negb (c_codec c =? BinaryCodecID)); [eauto|].
-  rewrite Hi. cbn [negb]. rewrite Hm.
+  rewrite Hi. cbn [negb]. destruct (armed e && fx_list (e_fx e)); [eauto|]. rewrite Hm.
   pose proof (open_segs_bad_sealed c (ps_segs ps) [] e Hex) as H.
   destruct (open_segs c (ps_segs ps) [] e) as [[[r segs] tl] e1].
   destruct r; try (eexists; eexists; reflexivity). congruence.
